@@ -228,3 +228,25 @@ package stateful
 //@   ensures [operand-types-refreshed] n.constReturnType == ast.InvalidType && result1 == nil ==>
 //@       n.leftType == callresult(n.leftEvaluator.Type, 0) && n.rightType == callresult(n.rightEvaluator.Type, 0)
 //@   ensures n.constReturnType != ast.InvalidType ==> result0 == n.constReturnType && result1 == nil
+
+// Unary minus: when the operand's type of THIS scope is not the requested one, the type-guard
+// error names that type (the parent binary node repairs its cached operand type from it: a wrong
+// type there makes a well-typed later point fail).
+//@ func (*EvalUnaryNode).Type
+//@   trusted
+//@   modifies nothing
+//@ func (*EvalUnaryNode).EvalInt
+//@   props C04
+//@   requires n != nil && n.nodeEvaluator != nil
+//@   ensures [guard-names-actual-type] callresult(n.Type, 1) == nil && callresult(n.Type, 0) != ast.TInt ==> typeis(result1, ErrTypeGuardFailed)
+//@       && as(result1, ErrTypeGuardFailed).ActualType == callresult(n.Type, 0) && as(result1, ErrTypeGuardFailed).RequestedType == ast.TInt
+//@ func (*EvalUnaryNode).EvalFloat
+//@   props C04
+//@   requires n != nil && n.nodeEvaluator != nil
+//@   ensures [guard-names-actual-type] callresult(n.Type, 1) == nil && callresult(n.Type, 0) != ast.TFloat ==> typeis(result1, ErrTypeGuardFailed)
+//@       && as(result1, ErrTypeGuardFailed).ActualType == callresult(n.Type, 0) && as(result1, ErrTypeGuardFailed).RequestedType == ast.TFloat
+//@ func (*EvalUnaryNode).EvalDuration
+//@   props C04
+//@   requires n != nil && n.nodeEvaluator != nil
+//@   ensures [guard-names-actual-type] callresult(n.Type, 1) == nil && callresult(n.Type, 0) != ast.TDuration ==> typeis(result1, ErrTypeGuardFailed)
+//@       && as(result1, ErrTypeGuardFailed).ActualType == callresult(n.Type, 0) && as(result1, ErrTypeGuardFailed).RequestedType == ast.TDuration
